@@ -796,3 +796,34 @@ readline = Contract(
     note='bytes are opaque: only WHICH value each test for a literal announcement looks at is decided')
 readline.binop_model = _rl_binop
 CONTRACTS_READ = [interrupt, read_command, readline]
+
+
+# ---- IMAPConnection.start_tls: plain text sent ahead of the handshake is discarded (C09)
+def _stls_ghost(st, sc):
+    st.ghost['buffer_cleared'] = VBool(False)
+    st.ghost['handshake_started_with_clean_buffer'] = VBool(False)
+
+
+def _stls_clear(ex, frame, e, base=None):
+    ex.st.ghost['buffer_cleared'] = VBool(True)
+    return VNone()
+
+
+def _stls_handshake(ex, frame, e, base=None):
+    ex.eval_args(e, frame)
+    ex.oblige(f'{ex.c.name}/handshake/what_was_buffered_in_plain_text_has_been_discarded', _b(ex.st.ghost['buffer_cleared']))
+    ex.st.ghost['handshake_started_with_clean_buffer'] = ex.st.ghost['buffer_cleared']
+    import ssl
+    _may_raise(ex, (ConnectionError, ssl.SSLError))
+    return VNone()
+
+
+start_tls = Contract(
+    'C09', F, 'IMAPConnection.start_tls', params=dict(self=RecS('IMAPConnection2', pyclass=(F, 'IMAPConnection'),
+                                                                   config=RefS('Config', ssl_context=RefS('SSLContext')))),
+    ghost_init=_stls_ghost, calls={'self.reader._buffer.clear': _stls_clear, 'self.writer.start_tls': _stls_handshake,
+                                   'self._print': _noop},
+    ensures=[('the_handshake_started_on_an_empty_read_buffer', lambda s: s.ghost('handshake_started_with_clean_buffer'))],
+    raises_only=(ConnectionError, __import__('ssl').SSLError),
+    note='a LOGIN pipelined behind STARTTLS in the same plain-text segment is never read as if it had arrived protected')
+CONTRACTS_AUTH = [authenticate, start_tls]
